@@ -74,7 +74,7 @@ def main():
         bad = sorted(set(rng.randint(-30, 30) for _ in range(rng.choice([0, 1, 3, 6, 12]))) - set(starts))
         samples = [rng.randint(-30, 30) for _ in range(rng.choice([0, 2, iters, iters + 3]))]
         us = [(rng.choice([-4, -3, -2, -1, 1, 2, 3, 4]), rng.randint(max(0, mind - 1), maxd)) for _ in range(k * iters + rng.choice([0, 0, 3]))]
-        script.append("CRRT %d %d %d %d %d %d %d %g B %d %s S %d %s P %d %s U %d %s" % (goal, thr, mind, maxd, k, iters, rng.randint(0, 10 ** 6), rng.choice([0.0, 0.05, 0.25, 0.5]),
+        script.append("%s %d %d %d %d %d %d %d %g B %d %s S %d %s P %d %s U %d %s" % ("CRRT" if i % 3 else "CRRTI", goal, thr, mind, maxd, k, iters, rng.randint(0, 10 ** 6), rng.choice([0.0, 0.05, 0.25, 0.5]),
                       len(bad), " ".join(map(str, bad)), len(starts), " ".join(map(str, starts)), len(samples), " ".join(map(str, samples)), len(us), " ".join("%d %d" % q for q in us)))
     rc, o, e, s = vf.sh([drv], input="\n".join(script) + "\n", timeout=600); c.step("correspond:impl-pwv", drv, s, rc == 0)
     rc2, o2, e2, s2 = vf.sh([model, "control"], input="\n".join(script) + "\n", timeout=600); c.step("correspond:model-pwv", model + " control", s2, rc2 == 0)
@@ -87,7 +87,7 @@ def main():
             if first_diff is None or len(l) < len(first_diff[0]): first_diff = (l, a, b)
         # the statement on the implementation's own answer: counts and states consistent with the script
         w = a.replace("|", " ").split()
-        if l.startswith("CRRT "):
+        if l.startswith(("CRRT ", "CRRTI ")):
             # the statement on the implementation's own tree and report: every tree motion replays on valid states with at least the
             # minimum duration; the path is a chain of tree motions from a start; exact => inside the goal threshold
             try:
@@ -101,7 +101,7 @@ def main():
                         if nd[0] not in starts: why = "root %d is not a start state" % j
                     else:
                         x, pi, u, st = nd; px = nodes[pi][0]
-                        if not (pi < j) or st < mind or px + u * st != x or any((px + u * q) in bad for q in range(1, st + 1)): why = "tree motion %d -> %d (control %d x %d steps) does not replay on valid states / is shorter than the minimum duration" % (pi, j, u, st)
+                        if not (pi < j) or (st < mind and not l.startswith("CRRTI ")) or (st != 1 and l.startswith("CRRTI ")) or px + u * st != x or any((px + u * q) in bad for q in range(1, st + 1)): why = "tree motion %d -> %d (control %d x %d steps) does not replay on valid states / is shorter than the minimum duration" % (pi, j, u, st)
                 rep = parts[1].split()
                 crrt_stats["runs"] += 1; crrt_stats["nodes"] += len(nodes); crrt_stats["none" if rep[0] != "1" else ("exact" if rep[1] == "0" else "approximate")] += 1
                 if rep[0] == "1":
@@ -204,7 +204,7 @@ def main():
             ndiff += 1
             if first_diff is None: first_diff = (j, "admission rule '%s'" % v, "predicate '%s'" % msg)
     c.cov.update({"evaluations": len(script) + len(jobs), "traces_validated_against_impl": len(script) + stats["runs"], "distinct_nontrivial": stats["status_5"] + stats["status_6"],
-                  "rule": "(a) %d scripted propagateWhileValid / propagate / SimpleDirectedControlSampler::getBestControl (1-6 scripted candidates) calls and scripted control::RRT runs (whole tree and report compared) (0..40 steps, 0..3 invalid states placed on or just after the trajectory), all three entry points compared exactly; (b) %d runs: 8 control planners (RRT with / without intermediate states, SST, EST, KPIECE1, PDST, SyclopRRT, SyclopEST) x systems {first-order point, car with heading wrap; directed control sampler with k = 1 (default), 2, 4, 8 candidates} x environments x queries x step size {.01-.1} x min/max duration {1-5, +0..30} x threshold x seeds; non-trivial = run reporting a solution (replayed step by step)" % (len(script), len(jobs)),
+                  "rule": "(a) %d scripted propagateWhileValid / propagate / SimpleDirectedControlSampler::getBestControl (1-6 scripted candidates) calls and scripted control::RRT runs with and without intermediate states (whole tree and report compared) (0..40 steps, 0..3 invalid states placed on or just after the trajectory), all three entry points compared exactly; (b) %d runs: 8 control planners (RRT with / without intermediate states, SST, EST, KPIECE1, PDST, SyclopRRT, SyclopEST) x systems {first-order point, car with heading wrap; directed control sampler with k = 1 (default), 2, 4, 8 candidates} x environments x queries x step size {.01-.1} x min/max duration {1-5, +0..30} x threshold x seeds; non-trivial = run reporting a solution (replayed step by step)" % (len(script), len(jobs)),
                   "disagreements": ndiff, "predicate_failures": npred, "control_rrt_scripts": dict(crrt_stats), "predicate_failures_by_kind": dict(failures), "failing_runs": failing[:40], "histogram": dict(stats)})
     c.cov["samples"] = jobs[:3]
     c.cov["trusted_base"] += ["extraction (ExtrOcamlBasic) + extract/control_driver.ml; harness/control_driver.cpp (its own copy of both propagators, replay tolerance 1e-9 in the state-space metric)"]
